@@ -1,0 +1,7 @@
+//go:build verif
+
+// Contracts for package events, checked by /verif/govc (comment-only; compiled only with -tags verif).
+package events
+
+//@ func NewEvent(eventType EventType) Event
+//@   ensures [C11:type] result.EventType == eventType
